@@ -166,6 +166,7 @@ pub fn tr_expr(cx: &mut Ctx, e: &Expr, expected: Option<&Ty>) -> R<Tr> {
                     "usize" => IntK::Usize,
                     "i32" => IntK::I32,
                     "u32" => IntK::U32,
+                    "isize" => IntK::I64,
                     "" => match expected {
                         Some(Ty::Int(k)) => k.clone(),
                         _ => IntK::Unk,
@@ -564,6 +565,12 @@ pub fn tr_pat(cx: &mut Ctx, p: &Pat, ty: &Ty) -> R<String> {
                 ("Some", Ty::Opt(t)) => Ok(format!("(some {})", tr_pat(cx, inner, t)?)),
                 ("Ok", Ty::Res(t, _)) => Ok(format!("(.ok {})", tr_pat(cx, inner, t)?)),
                 ("Err", Ty::Res(_, e)) => Ok(format!("(.error {})", tr_pat(cx, inner, e)?)),
+                (v, Ty::Enum(en)) => {
+                    let ei = cx.idx.enums.get(en).ok_or("enum")?.clone();
+                    let i = ei.variants.iter().position(|x| x == v).ok_or("variant")?;
+                    let pt = ei.payloads[i].clone().ok_or("payload")?;
+                    Ok(format!("({}.{} {})", en, lean_ident(v), tr_pat(cx, inner, &pt)?))
+                }
                 _ => Err(format!("tuple-struct pattern {} against {:?}", last, ty)),
             }
         }
@@ -716,10 +723,37 @@ fn tr_call(cx: &mut Ctx, c: &ExprCall, expected: Option<&Ty>) -> R<Tr> {
         let hi = tr_expr(cx, &c.args[2], Some(&Ty::F64))?;
         return Ok(Tr::new(format!("(ntClamp {} {} {})", x.s, lo.s, hi.s), Ty::F64));
     }
+    if segs.len() == 2 && segs[0] == "Vec" && (last == "new" || last == "with_capacity") {
+        let t = expected.cloned().ok_or("Vec::new() of unknown type")?;
+        return Ok(Tr::new(format!("([] : {})", cx.lean_ty(&t)?), t));
+    }
+    if segs.len() == 2 && segs[0] == "NonZeroU64" && last == "new" {
+        let v = tr_expr(cx, &c.args[0], Some(&Ty::Int(IntK::U64)))?;
+        return Ok(Tr::new(format!("(if {} = 0 then none else some {})", v.s, v.s), Ty::Opt(Box::new(Ty::Int(IntK::U64)))));
+    }
     match cx.resolve(&segs) {
         Resolved::Fn(k) => call_fn(cx, &k, None, &c.args),
         Resolved::Local(_) => Err("call of local closure".into()),
-        Resolved::Struct(s) => Err(format!("tuple-struct constructor {}", s)),
+        Resolved::Variant(en, v) => {
+            let ei = cx.idx.enums.get(&en).unwrap().clone();
+            let i = ei.variants.iter().position(|x| *x == v).unwrap();
+            let pt = ei.payloads[i].clone().ok_or("call of unit variant")?;
+            let a = tr_expr(cx, &c.args[0], Some(&pt))?;
+            Ok(Tr::new(format!("({}.{} {})", en, lean_ident(&v), a.val()), Ty::Enum(en)))
+        }
+        Resolved::Struct(sn) => {
+            let si = cx.idx.structs.get(&sn).ok_or("struct")?.clone();
+            if si.fields.len() != c.args.len() {
+                return Err(format!("tuple-struct constructor arity {}", sn));
+            }
+            let mut fs = vec![];
+            for (a, (fname, fty)) in c.args.iter().zip(si.fields.iter()) {
+                let v = tr_expr(cx, a, Some(fty))?;
+                fs.push(format!("f_{} := {}", fname, v.val()));
+            }
+            let ty = Ty::Struct(sn.clone());
+            Ok(Tr::new(format!("({{ {} }} : {})", fs.join(", "), cx.lean_ty(&ty)?), ty))
+        }
         _ => Err(format!("unresolved call {}", segs.join("::"))),
     }
 }
@@ -775,6 +809,11 @@ pub fn tr_macro(cx: &mut Ctx, mac: &Macro, expected: Option<&Ty>) -> R<Tr> {
         "panic" | "unreachable" | "unimplemented" | "todo" => {
             let t = expected.cloned().unwrap_or(Ty::Never);
             Ok(Tr::new("panicV", t))
+        }
+        "vec" if mac.tokens.to_string().contains(';') => {
+            let toks = mac.tokens.to_string();
+            let arr: ExprRepeat = syn::parse_str(&format!("[{}]", toks)).map_err(|e| format!("vec![x; n]: {}", e))?;
+            tr_expr(cx, &Expr::Repeat(arr), expected)
         }
         "vec" => {
             let args = parse_macro_args(mac)?;
